@@ -114,7 +114,10 @@ def _organic(item, out):
             out["evals"] += 1
             out["distinct"] += 1
             try:
-                g_geo = _strip_nondouble(StereoMolGraph.from_geometry(Geometry(els, xyz)), dbl)
+                scratch = np.array(xyz, dtype=np.float64)
+                geo0 = Geometry(els, scratch)
+                scratch *= -1.0          # the caller's array is reused (here: reflected in place) after the Geometry was built
+                g_geo = _strip_nondouble(StereoMolGraph.from_geometry(geo0), dbl)
                 eq = (g_ann == g_geo) and (g_geo == g_ann)
             except Exception as e:
                 eq = "EXC:" + type(e).__name__
@@ -195,6 +198,72 @@ TEMPL = {"SP": ("Pt", G.SQ, G.METAL_LEN, ["F", "Cl", "Br", "I"], "SquarePlanar")
          "OH": ("W", G.OCT, G.METAL_LEN, ["H", "F", "Cl", "Br", "I", "O"], "Octahedral")}
 
 
+def _elongated(item, out, mol, els, xyz, c, place, conv, dname):
+    """Jahn-Teller-like octahedron: the two ligands on the z axis are moved out beyond the default bonding distance and the
+    coordinates are perceived with a caller-supplied switching function whose metal-ligand cut-offs are raised: six bonds, and the
+    octahedral descriptor must still agree with the label RDKit assigns to the same coordinates"""
+    from rdkit import Chem
+    from rdkit.Geometry import Point3D
+    from stereomolgraph import MolGraph, StereoMolGraph
+    from stereomolgraph.coords import BondsFromDistance, Geometry
+
+    r = G.radii()
+    from ..model.elements import Z as ZZ
+
+    x0 = np.array(xyz, dtype=float) - np.array(xyz[c], dtype=float)
+    Q = G.generic_rotation(item["seed"])
+    local = x0 @ Q          # undo the generic rotation (xyz = local @ Q.T + t)
+    x1 = local.copy()
+    moved = []
+    for i in range(len(els)):
+        if i != c and abs(local[i][2]) > 0.9 * np.linalg.norm(local[i]):
+            d = 1.32 * (r[ZZ[els[c]]] + r[ZZ[els[i]]])
+            x1[i] = local[i] / np.linalg.norm(local[i]) * d
+            moved.append(i)
+    if len(moved) != 2:
+        return
+    x1 = x1 @ Q.T + np.array(xyz[c], dtype=float)
+    sf = BondsFromDistance()
+    for i in range(len(els)):
+        if i != c:
+            sf.connectivity_cutoff[(ZZ[els[c]], ZZ[els[i]])] = 1.8 * (r[ZZ[els[c]]] + r[ZZ[els[i]]])
+    m2 = Chem.RWMol(mol)
+    conf = m2.GetConformer()
+    for i, p in enumerate(x1):
+        conf.SetAtomPosition(i, Point3D(*map(float, p)))
+    mol2 = m2.GetMol()
+    try:
+        Chem.AssignStereochemistryFrom3D(mol2)
+    except Exception:
+        return
+    if str(mol2.GetAtomWithIdx(c).GetChiralTag()) != "CHI_OCTAHEDRAL":
+        return
+    out["evals"] += 1
+    out["distinct"] += 1
+    out["outcomes"]["compared-OH-elongated"] = out["outcomes"].get("compared-OH-elongated", 0) + 1
+    inp = f"OH-elongated|{place}"
+    try:
+        d_ann = U.from_real(conv(mol2)).astereo.get(c)
+        g = StereoMolGraph.from_geometry(Geometry(els, x1), sf)
+        gm = MolGraph.from_geometry(Geometry(els, x1), sf)
+        d_geo = U.from_real(g).astereo.get(c)
+    except Exception as e:
+        out["viol"].append({"sig": "C14/complex/OH-elongated/raised:" + type(e).__name__, "input": inp, "what": f"{e!r}", "item": item,
+                            "detail": None})
+        return
+    if len(gm.bonds) != 6 or {frozenset(b) for b in g.bonds} != {frozenset(b) for b in gm.bonds}:
+        out["viol"].append({"sig": "C14/complex/OH-elongated/connectivity", "input": inp,
+                            "what": f"with the caller's switching function MolGraph.from_geometry finds {len(gm.bonds)} bonds and "
+                                    f"StereoMolGraph.from_geometry {len(g.bonds)} (expected 6 and 6)", "item": item, "detail": None})
+        return
+    good = (d_ann is not None and d_geo is not None and d_ann[0] == dname and d_geo[0] == dname and d_ann[2] is not None
+            and d_geo[2] is not None and RS.same(d_ann, d_geo))
+    if not good:
+        out["viol"].append({"sig": "C14/complex/OH-elongated/descriptor-differs", "input": inp,
+                            "what": f"elongated octahedron, ligands on vertices {place}: imported {d_ann} vs perceived with the caller's "
+                                    f"switching function {d_geo}", "item": item, "detail": None})
+
+
 def _complex(item, out):
     from rdkit import Chem
     from rdkit.Geometry import Point3D
@@ -253,13 +322,20 @@ def _complex(item, out):
                     if str(tag) not in ("CHI_SQUAREPLANAR", "CHI_TRIGONALBIPYRAMIDAL", "CHI_OCTAHEDRAL"):
                         oc["rdkit-no-label"] = oc.get("rdkit-no-label", 0) + 1
                         continue
+                    if cls == "OH" and sigma == 0.0 and not centre_last and bo is bond_orders[0]:
+                        _elongated(item, out, mol, els, xyz, c, place, conv, dname)
                     out["evals"] += 1
                     out["distinct"] += 1
                     oc["compared-" + cls] = oc.get("compared-" + cls, 0) + 1
                     inp = f"{cls}|{place}|s{sigma}|last{centre_last}|{bo}"
                     try:
                         d_ann = U.from_real(conv(mol)).astereo.get(c)
-                        d_geo = U.from_real(StereoMolGraph.from_geometry(Geometry(els, xyz))).astereo.get(c)
+                        # (the array handed to Geometry is a scratch copy that is overwritten straight afterwards: a Geometry keeps
+                        #  describing the shape it was built from)
+                        scratch = np.array(xyz, dtype=np.float64)
+                        geo = Geometry(els, scratch)
+                        scratch *= -1.0
+                        d_geo = U.from_real(StereoMolGraph.from_geometry(geo)).astereo.get(c)
                     except Exception as e:
                         out["viol"].append({"sig": f"C14/complex/{cls}/raised:" + type(e).__name__, "input": inp,
                                             "what": f"{e!r}", "item": item, "detail": None})
